@@ -1,6 +1,6 @@
 #!/usr/bin/env python3
 """Run every quick_cmd (or thorough_cmd) of MANIFEST.json (optionally with VERIF_SEED=<n>) and summarise:
-allquick.py [seed] [quick|thorough]"""
+allquick.py [seed] [quick|thorough] [ID ...]"""
 import json, os, subprocess, sys, time
 VERIF = os.path.dirname(os.path.dirname(os.path.abspath(__file__)))
 seed = sys.argv[1] if len(sys.argv) > 1 else "0"
@@ -8,7 +8,10 @@ tier = sys.argv[2] if len(sys.argv) > 2 else "quick"
 m = json.load(open(os.path.join(VERIF, "MANIFEST.json")))
 bad = []
 t0 = time.time()
+only = set(sys.argv[3:])
 for c in m["checks"]:
+    if only and c["property_id"] not in only:
+        continue
     t = time.time()
     p = subprocess.run(c["%s_cmd" % tier], shell=True, cwd=VERIF, env=dict(os.environ, VERIF_SEED=seed, VERIF_TIER=tier),
                        stdout=subprocess.PIPE, stderr=subprocess.STDOUT, text=True)
